@@ -10,7 +10,8 @@ R = per ended message: start-line fields, header pairs in order, body, trailers,
 errored, error; plus bytes left in the buffer, the state of a message still in progress, and an escaped exception.
 Violation keys name the mechanism:
   eol-precedence:lf-line-with-crlf-later     T or M fails on an input where an LF-terminated head/trailer line is followed,
-                                             anywhere later in the byte string, by a CRLF (terminator searched by TYPE)
+                                             anywhere later in the byte string, by a CRLF, AND the tree's parseLine is observed
+                                             (vf.mon.http_parse.line_probe) to pick terminators by type instead of position
   escape:<Exc>:<hio function>                an exception left parse() on a well-formed message (fed whole)
   truth:<kind>:<framing>:<field>             R(whole) differs from the description in <field>
   frag:<kind>:<framing>:<field>              R(partition) differs from R(whole), first in <field>
@@ -46,7 +47,7 @@ LEVEL_TEXT = ("Every generated message sequence is parsed by the real code once 
 LEVEL_NOTE = "trusted: vf.gen_http encoder and its ground-truth fields (cross-checked by its own chunk decoder), dict/list equality"
 NSHARDS = {"quick": 16, "thorough": 16}
 TIMEOUT_S = {"quick": 300, "thorough": 3600}
-BUDGET_S = {"quick": 30, "thorough": 480}
+BUDGET_S = {"quick": 25, "thorough": 450}
 REQUIRE = {"feeds": 20000, "two_split_partitions": 10000, "one_byte_partitions": 100, "random_partitions": 500,
            "crlf_cut_partitions": 100, "messages_ended_whole": 300, "truth_checks": 300,
            "framing:length": 40, "framing:chunked": 40, "framing:close": 10, "framing:none": 10,
@@ -70,7 +71,7 @@ def cases(tier, seed, shard, nshards):
     if shard == 0:
         yield _probe_case()
     rng = random.Random(f"{seed}:C13:{shard}")
-    ncases = (240 if tier == "quick" else 4000) // nshards * 4
+    ncases = (144 if tier == "quick" else 3200) // nshards * 4
     maxtotal = 2048 if tier == "quick" else 16384
     for i in range(ncases):
         kind = rng.choice(["request", "response"])
@@ -181,7 +182,9 @@ def run_case(case, ctx):
     n = len(raw)
     close = kind == "response" and descs[-1]["framing"] == "close"
     method = case.get("req_method", "GET")
-    trig = precedence_trigger(descs, raw)
+    # the label is used only when the tree's line splitter is observed to choose terminators by type
+    trig = H.line_probe()["precedence"] and precedence_trigger(descs, raw)
+    ctx.count("line_splitter_probe:by-type" if H.line_probe()["precedence"] else "line_splitter_probe:by-position")
     reported = set()
 
     def report(key, msg):
@@ -248,6 +251,8 @@ def run_case(case, ctx):
             a = whole["msgs"][i].get(field) if (i is not None and i < len(whole["msgs"])) else whole.get(field)
             r2 = H.comparable(res)
             b = r2["msgs"][i].get(field) if (i is not None and i < len(r2["msgs"])) else r2.get(field)
+            if field == "ended":
+                a, b = len(whole["msgs"]), len(r2["msgs"])
             report(PRECEDENCE_KEY if trig else f"frag:{kind}:{fr(i)}:{field}",
                    f"{family} cuts={cuts[:12]}{'...' if len(cuts) > 12 else ''}: {field} of message {i} is {b!r} but "
                    f"{a!r} when fed whole; raised whole={whole['raised']} split={res['raised']}; bytes={raw[:300]!r}")
